@@ -5,6 +5,20 @@ HERE = os.path.dirname(os.path.abspath(__file__))
 ALL = ["C%02d" % i for i in range(1, 21)]
 
 CHECKS = {
+ "C07": dict(
+  engine="runner",
+  technique="runtime monitoring with an executable oracle: CPython sys.setprofile call events (node for a JavaScript rendering) of generated call-kind programs compared with the call paths lian stores, the loader's callee/caller API and P3 frames recorded by wrappers, one project per forked `semantic` run",
+  category="exploration",
+  text="Generated Python projects of 1-4 files (optional package directory; entry = %unit_init or a configured function; one call per line, labelled with its call kind and provenance): direct, from-import with/without alias, m.f / pk.m.f / aliased module, constructors (own, inherited, via import), receiver / inherited / overridden / self-dispatched methods in 2-3 level hierarchies, static and class methods, methods on parameters and on factory results, bound methods as values, callbacks, returned functions and closures, functions held in variables / lists / dicts / fields, recursion, mutual recursion, nested functions, calls inside if/else/for/while/try/finally; one project in ten with --enable-p2; the same generator rendered as single-file JavaScript with node as oracle. Per observed call event (entry, caller, call line, callee): (a) a stored call path from that entry contains the edge, (b) get_callees/get_callers agree, (c) a P3 frame for the callee under that call site was analysed. Cascades are attributed to their root. Quick 160 + 36 projects (~3.5k events), thorough 3000 + 500 (~64k).",
+  note="Trusted: CPython profile events / node tracing and the verified (file, line) -> GIR id join. 26 mechanism signatures are open known findings (module-attribute calls, base classes through module attributes, returned functions, function in field via self, super().__init__, self-dispatch to subclass overrides, p2 constructors...); a known mechanism explains only events of exactly that kind and provenance. JavaScript is single-file.",
+  design="DESIGN.md §C07"),
+ "C20": dict(
+  engine="runner",
+  technique="runtime monitoring with a restated-rule oracle: real `lian run` on generated mixed Python/JavaScript projects under 9 classes of entry rule sets, with recording wrappers on P3's start and frame analysis, cross-checked with semantic_p1/entry_points, the console 'Analyzing' lines and the taint output",
+  category="exploration",
+  text="Projects of 2-5 files in several directories (Python and JavaScript mixed in one run; recurring function names, class methods, nested functions, decorators -> attrs, top-level code, files named as in the repo's default entry.yaml; every method embeds one parameter-source -> sink flow) x rule sets {empty, initialiser only, by method name, by language incl. absent languages, by unit name, by unit path, by attribute, overlapping (also split over a second *-entry.yaml), the repo default}. Clauses: start set == rule-selected set (own restatement of the matching rule, evaluated over the project plus the extern mock units), nothing started twice, file/loader/console agree; every selected method has its own analysed frame even if nothing calls it; the reported flows are exactly the embedded flows of the methods reachable from what was started. Quick 40 projects x 6 rule sets, thorough 500 x 8.",
+  note="Trusted: the restated matching rule in checks/c20.py (written from the settings format, attribute names chosen so that substring matching cannot matter), the generator's call structure (validated against CPython for the Python files). No defect was found on this workload.",
+  design="DESIGN.md §C20"),
  "C05": dict(
   engine="runner",
   technique="differential runtime monitoring with a language-runtime oracle: generated scope/binding programs run under CPython and node (unique constants reveal which declaration each executed use read; symtable cross-checks) and through real lang+P1 runs; the symbol_id in semantic_p1/s2space_p1 is compared per occurrence with the declaration rows of the scope/file the runtime selected; metamorphic alpha-renaming relation on the P1 tables in 7 languages",
